@@ -94,7 +94,10 @@ class _ShadowRule:
 def _ct(t):
     from ..pattern import norm as pn
     from ..canon import _SymOrder
-    return pn(_SymOrder().visit(ast.parse(t, mode="eval").body))
+    try:
+        return pn(_SymOrder().visit(ast.parse(t, mode="eval").body))
+    except SyntaxError:
+        return pn(t)          # not an expression (e.g. a nested def substituted for its name): compared as text, equal to no expected expression
 
 
 def _r1(chk, repo):
@@ -103,6 +106,15 @@ def _r1(chk, repo):
     from ..pathtable import walk
     from ..pattern import norm as pn
     ca = repo.cls("cuqi/array/_array.py:CUQIarray")
+    # an array cannot notice in-place changes of its own entries (x *= 3, x[1] = ...): a conversion result remembered on the array would go stale
+    for pname in ("funvals", "parameters"):
+        gt = ca.props[pname].getter
+        stores = sorted({path_of(t) for a_ in ast.walk(gt) if isinstance(a_, (ast.Assign, ast.AugAssign))
+                         for t in (a_.targets if isinstance(a_, ast.Assign) else [a_.target]) if (path_of(t) or "").startswith("self.")})
+        stores += [f"setattr(self, ...)" for c_ in ast.walk(gt) if isinstance(c_, ast.Call) and call_name(c_) in ("setattr", "object.__setattr__") and c_.args and path_of(c_.args[0]) == "self"]
+        chk.add("C13-R1", f"{ca.qual}.@{pname}/no-memo", not stores, site(repo, gt), "conversion result is not remembered on the array",
+                f"`{pname}` stores {stores} on the array: the entries of an ndarray can be changed in place without any hook, so the remembered conversion "
+                f"no longer belongs to the array's values after `x *= 3` or `x[1] = ...` (forward models then act on the old values)", gt)
     f = ca.props["funvals"].getter
     v = canon_fn(repo, ca, f, 2)
     problems, und = [], []
